@@ -34,7 +34,7 @@ def build_table(spec):
         t = dict(roles=list(spec.get('roles', [])), normalizations=dict(spec.get('normalizations', {})),
                  reifications=[list(r) for r in spec.get('reifications', [])], noop=bool(spec.get('noop', False)))
     t['top_role'] = spec.get('top_role', ':TOP')
-    t['concept_role'] = ':instance'
+    t['concept_role'] = spec.get('concept_role', ':instance')
     t['name'] = name
     return t
 
@@ -58,11 +58,11 @@ def build_model(spec, fresh=False):
         m = Model()
     elif name == 'amr':
         from penman.models.amr import model as m
-    elif name == 'noop' and 'top_role' not in spec:
+    elif name == 'noop' and 'top_role' not in spec and 'concept_role' not in spec:
         from penman.models.noop import model as m
     else:
         t = build_table(spec)
-        kw = dict(top_role=t['top_role'],
+        kw = dict(top_role=t['top_role'], concept_role=t['concept_role'],
                   roles={r: {} for r in t['roles']}, normalizations=t['normalizations'],
                   reifications=[tuple(r) for r in t['reifications']])
         if t['noop']:
